@@ -331,6 +331,10 @@ class Sym:
     def __rtruediv__(self, o): return self._bin(o, _div, True)
     def __neg__(self): return Sym(-self.e)
     def __pos__(self): return self
+
+    def __bool__(self):
+        # truth value of a number (numpy's .any() / .all(), `if x:`): non-zero -- decided by the path oracle like any comparison
+        return ORACLE.decide(self.e != 0)
     def __abs__(self): return Sym(z3.If(self.e >= 0, self.e, -self.e))
 
     def __pow__(self, o):
